@@ -373,6 +373,7 @@ def canon_M(m):
     if "err" in m:
         return {"build": {"err": [m["err"][0]]}}
     o = m["ok"]
+    listed = {s_ for _, ss in m.get("isos", []) for s_ in ss}
     return {"build": {"ok": True},
             "vocab": {"helper": [({"ok": h["ok"]} if "ok" in h else {"err": [h["err"][0]]}) for h in m.get("helper", [])],
                       "padded": [list(map(lambda x: list(x) if isinstance(x, list) else x, p)) for p in m.get("padded", [])],
@@ -382,7 +383,9 @@ def canon_M(m):
             "enrich": [sorted(list(x) for x in e) for e in m.get("enrich", [])],
             "rxns": sorted([n, a, sorted(st)] for n, a, st in o["rxns"]),
             "vars": sorted(o["vars"]),
-            "rhs": [{"ok": sorted(r)} for r in o["rhs"]]}
+            # (the evaluation models of the real side are built without initial_labels: a stray variable that an
+            # out-of-range initial position created exists only in the structure build; it takes part in no reaction)
+            "rhs": [{"ok": sorted(x for x in r if x[0] in listed)} for r in o["rhs"]]}
 
 
 def evaluate(cases, use_driver=True):
